@@ -22,18 +22,22 @@ def compare_value(check, name, got, want, **ctx):
     if name == "is_normalized":
         return ref.cmp_bits(check, got, want, **ctx)
     floor = 1e-6 if (name.startswith("attr.") or name.startswith("dict.")) else 1e-300
-    if name in ("attr.mu", "attr.nu", "attr.b", "get_conditional_mu"):
+    if name in ("attr.mu", "attr.nu", "attr.b", "get_conditional_mu", "sample"):
         floor = 1e-3
     return ref.cmp_lin(check, got, want, floor=floor, **ctx)
 
 
-def compare_outputs(base, pert, prefix="twin", only=None, skip_attr_caches=False):
+def compare_outputs(base, pert, prefix="twin", only=None, bitwise=()):
     """Every observation present in both executions agrees (the properties' equality)."""
     n = 0
     for k in sorted(base):
         if k not in pert:
             continue
         if only is not None and not only(k):
+            continue
+        if k in bitwise:
+            ref.cmp_bits(f"{prefix}.{k[1]}.bits", pert[k], base[k], step=k[0], output=k[1])
+            n += 1
             continue
         compare_value(f"{prefix}.{k[1]}", k[1], pert[k], base[k], step=k[0], output=k[1])
         n += 1
